@@ -36,6 +36,8 @@ enum {
     VE_PRUNE_PUB,      /* (jcol, irep, kmin)          xprune/ispruned published          */
     VE_PANEL_DONE,     /* (pnum, jcol, &state)        STATE(jcol) = DONE                 */
     VE_RACY_READ,      /* (pnum, what, addr)          declared racy-by-design read       */
-    VE_THREAD_EXIT     /* (pnum, info, 0)             worker leaves the main loop        */
+    VE_THREAD_EXIT,    /* (pnum, info, 0)             worker leaves the main loop        */
+    VE_PRESET_MAP,     /* (n, nextpos, map_in_sup)    static/dynamic L-supernode slot map built */
+    VE_DYN_SETMAP      /* (jcol, num, &nextlu)        dynamic mode: slot [nextlu,nextlu+num) for H-supernode jcol */
 };
 #endif
